@@ -246,7 +246,7 @@ RefBody(pr, rs, body, i) == IF i > Len(body) THEN rs ELSE RefBody(pr, RefExec(pr
 RECURSIVE RefLoop(_, _, _, _, _)
 RefLoop(pr, meta, rs, k, fuel) ==      \* k = number of gate evaluations so far
   LET g == NodeByName(pr, meta.gate)
-      d == Decide(g, RawDecision(g, k + 1, <<>>))
+      d == Decide(g, RawDecision(g, k + 1, <<>>))   \* loop templates use scripted (non-pure) gates
       rs1 == [rs EXCEPT !.cnt = Put(rs.cnt, g.name, k + 1)]
   IN IF fuel = 0 THEN [rs EXCEPT !.cut = TRUE]
      ELSE IF DecSelects(g, d, meta.body[1]) THEN RefLoop(pr, meta, RefBody(pr, rs1, meta.body, 1), k + 1, fuel - 1)
@@ -353,11 +353,49 @@ C14(job) ==
        [ same_as_auto |-> auto.status = "completed" /\ FilterOut(pr, r.vals, job.select) = FilterOut(pr, auto.vals, job.select) ]
      ELSE [ na |-> TRUE ]
 
+(***************************************************************************)
+(* C09 -- caching is transparent.  job.seq is a sequence of runs sharing   *)
+(* one cache.  Every run returns what the uncached run returns; with an    *)
+(* unbounded cache a cacheable function is invoked at most once per        *)
+(* (definition, outputs, arguments) over the whole sequence; a hit is only *)
+(* ever served for an entry stored under the same key.                     *)
+(***************************************************************************)
+RECURSIVE UncachedProg(_)
+UncachedProg(pr) == [pr EXCEPT !.nodes = [i \in NodeIdx(pr) |->
+      IF IsGraph(pr.nodes[i]) THEN [pr.nodes[i] EXCEPT !.cache = FALSE, !.sub = UncachedProg(pr.nodes[i].sub)]
+      ELSE [pr.nodes[i] EXCEPT !.cache = FALSE]]]
+
+RECURSIVE SeqRuns(_, _, _, _)
+SeqRuns(job, k, cache, acc) ==
+  IF k > Len(job.seq) THEN acc
+  ELSE LET w == [WorldOf(job) EXCEPT !.cache = cache, !.cap = job.cap]
+           r == RunProg(job.prog, "", job.provided, w, job.seq[k])
+       IN SeqRuns(job, k + 1, r.w.cache, Append(acc, r))
+
+C09(job) ==
+  LET rs == SeqRuns(job, 1, <<>>, <<>>)
+      un(m) == RunProg(UncachedProg(job.prog), "", job.provided, WorldOf(job), m)
+      frames == AllFrames(job.prog, "")
+      allcalls == [k \in 1..Len(rs) |-> rs[k].calls]
+      keyOf(c) == LET nd == NodeByName(FrameProg(frames, c.frame), c.node) IN <<nd.fid, nd.outputs, c.args>>
+      cacheable(c) == c.kind # "graph" /\ NodeByName(FrameProg(frames, c.frame), c.node).cache
+      okcall(c) == LET nd == NodeByName(FrameProg(frames, c.frame), c.node) IN ~Fails(nd, c.idx, [i \in 1..Len(c.args) |-> <<"", c.args[i][1], c.args[i][2]>>])
+  IN [ transparent |-> \A k \in 1..Len(rs) :
+                          /\ rs[k].status = un(job.seq[k]).status
+                          /\ FilterOut(job.prog, rs[k].vals, job.select) = FilterOut(job.prog, un(job.seq[k]).vals, job.select)
+                          /\ rs[k].err = un(job.seq[k]).err,
+       once |-> job.cap = 0 =>
+                  \A k1, k2 \in 1..Len(rs) : \A i1 \in 1..Len(allcalls[k1]) : \A i2 \in 1..Len(allcalls[k2]) :
+                     LET c1 == allcalls[k1][i1]  c2 == allcalls[k2][i2] IN
+                     (cacheable(c1) /\ cacheable(c2) /\ okcall(c1) /\ okcall(c2) /\ <<k1, i1>> # <<k2, i2>>)
+                         => keyOf(c1) # keyOf(c2) ]
+
 \* dispatch used by the Predict_* configurations
 L1(prop, job) == CASE prop = "C01" -> C01(job)
                    [] prop = "C03" -> C03(job)
                    [] prop = "C04" -> C04(job)
                    [] prop = "C05" -> C05(job)
+                   [] prop = "C09" -> C09(job)
                    [] prop = "C14" -> C14(job)
                    [] prop = "C17" -> C17(job)
                    [] prop = "C16" -> C16(job)
